@@ -22,18 +22,16 @@ Proof. intros H. unfold collect. apply collect_loop_counts_irrelevant. exact H. 
 
 (* the part of the long-lived state a pass can read *)
 Definition relevant (me : method) (rescue : bool) (a b : pstate) : Prop :=
-  ps_seen a = ps_seen b /\
   (m_razor me = true -> ps_counts a = ps_counts b) /\
   (rescue = true -> ps_obsolete a = ps_obsolete b).
 
 Lemma one_pass_reads_only_relevant me o a b s l rescue ka pc p1 p2 :
   relevant me rescue a b ->
   snd (one_pass me o a s l rescue ka pc p1 p2) = snd (one_pass me o b s l rescue ka pc p1 p2) /\
-  ps_seen (fst (one_pass me o a s l rescue ka pc p1 p2)) = ps_seen (fst (one_pass me o b s l rescue ka pc p1 p2)) /\
   ps_counts (fst (one_pass me o a s l rescue ka pc p1 p2)) = ps_counts a /\
   ps_counts (fst (one_pass me o b s l rescue ka pc p1 p2)) = ps_counts b.
 Proof.
-  intros [Hseen [Hcounts Hobs]]. unfold one_pass.
+  intros [Hcounts Hobs]. unfold one_pass.
   assert (Hc : collect {| sc_razor := m_razor me; sc_shared := m_shared me; sc_counts := ps_counts a |} (o_md5 o) s rescue l =
                collect {| sc_razor := m_razor me; sc_shared := m_shared me; sc_counts := ps_counts b |} (o_md5 o) s rescue l).
   { destruct (m_razor me) eqn:Er; [rewrite Hcounts by reflexivity; reflexivity | apply collect_counts_irrelevant; reflexivity]. }
@@ -50,8 +48,7 @@ Proof.
   rewrite Hgi. destruct (match rescue, m_picked me, ps_obsolete b with
                          | true, PickedGroup, Some (og, oi) => (groups s ++ og, infos ++ oi)
                          | _, _, _ => (groups s, infos) end) as [gs is].
-  rewrite Hseen.
-  destruct (do_competition (m_picked me) (ps_seen b) (mk_entries gs is (map (o_score o) is)) p1 p2) as [ranked|e]; [|simpl; auto].
+  destruct (do_competition (m_picked me) [] (mk_entries gs is (map (o_score o) is)) p1 p2) as [ranked|e]; [|simpl; auto].
   destruct (calculate_protein_fdrs _) as [qs|e]; [|simpl; auto].
   destruct (from_protein_groups _ _ _ qs _ ka) as [rows|e]; simpl; auto.
 Qed.
@@ -72,21 +69,22 @@ Proof.
 Qed.
 
 (* ---- C07: the result of a call does not depend on what earlier calls left in the strategy objects ---- *)
+(* (no hypothesis on the two states: the competition clears its seen set before it starts, so even the set an ABORTED call
+   left behind is never read) *)
 Lemma run_history_independent me o a b l ka thr pc pis :
-  ps_seen a = ps_seen b ->
   snd (run me o a l ka thr pc pis) = snd (run me o b l ka thr pc pis).
 Proof.
-  intros Hseen. unfold run. destruct (group_proteins (m_grouping me) l) as [s0|e]; [|reflexivity].
+  unfold run. destruct (group_proteins (m_grouping me) l) as [s0|e]; [|reflexivity].
   set (a0 := {| ps_seen := ps_seen a; ps_counts := if m_razor me then Some l else ps_counts a;
                 ps_pep_cutoff := ps_pep_cutoff a; ps_rescue_cutoff := ps_rescue_cutoff a; ps_obsolete := ps_obsolete a |}).
   set (b0 := {| ps_seen := ps_seen b; ps_counts := if m_razor me then Some l else ps_counts b;
                 ps_pep_cutoff := ps_pep_cutoff b; ps_rescue_cutoff := ps_rescue_cutoff b; ps_obsolete := ps_obsolete b |}).
   assert (Hrel0 : relevant me false a0 b0).
-  { split; [exact Hseen|]. split; [intros Hr; simpl; rewrite Hr; reflexivity | discriminate]. }
-  destruct (one_pass_reads_only_relevant me o a0 b0 s0 l false ka pc (nth 0 pis []) (nth 1 pis []) Hrel0) as [Hs [Hse [Hca Hcb]]].
+  { split; [intros Hr; simpl; rewrite Hr; reflexivity | discriminate]. }
+  destruct (one_pass_reads_only_relevant me o a0 b0 s0 l false ka pc (nth 0 pis []) (nth 1 pis []) Hrel0) as [Hs [Hca Hcb]].
   destruct (one_pass me o a0 s0 l false ka pc (nth 0 pis []) (nth 1 pis [])) as [a1 ra] eqn:Ea.
   destruct (one_pass me o b0 s0 l false ka pc (nth 0 pis []) (nth 1 pis [])) as [b1 rb] eqn:Eb.
-  simpl in Hs, Hse, Hca, Hcb. subst rb.
+  simpl in Hs, Hca, Hcb. subst rb.
   destruct ra as [[infos1 rows1]|e]; [|reflexivity].
   destruct (negb (is_rescued (m_grouping me))); [reflexivity|].
   destruct (negb (can_rescue (m_score me))); [reflexivity|].
@@ -97,7 +95,7 @@ Proof.
   set (b2 := {| ps_seen := ps_seen b1; ps_counts := ps_counts b1; ps_pep_cutoff := ps_pep_cutoff b1;
                 ps_rescue_cutoff := Some rc; ps_obsolete := Some (og, map (fun i => nth i infos1 []) oidx) |}).
   assert (Hrel2 : relevant me true a2 b2).
-  { split; [exact Hse|]. split; [|reflexivity]. intros Hr. simpl. rewrite Hca, Hcb. simpl. rewrite Hr. reflexivity. }
+  { split; [|reflexivity]. intros Hr. simpl. rewrite Hca, Hcb. simpl. rewrite Hr. reflexivity. }
   destruct (one_pass_reads_only_relevant me o a2 b2 s2 l true ka pc (nth 2 pis []) (nth 3 pis []) Hrel2) as [Hs2 _].
   destruct (one_pass me o a2 s2 l true ka pc (nth 2 pis []) (nth 3 pis [])) as [a3 ra3].
   destruct (one_pass me o b2 s2 l true ka pc (nth 2 pis []) (nth 3 pis [])) as [b3 rb3].
@@ -122,6 +120,22 @@ Proof.
   simpl in H2. destruct ra3 as [[? ?]|?]; exact H2.
 Qed.
 
+(* a call that got as far as the competition leaves the seen set empty WHATEVER it found there *)
+Lemma one_pass_clears_seen me o a s l rescue ka pc p1 p2 infos rows :
+  snd (one_pass me o a s l rescue ka pc p1 p2) = Ok (infos, rows) ->
+  ps_seen (fst (one_pass me o a s l rescue ka pc p1 p2)) = [].
+Proof.
+  unfold one_pass.
+  destruct (collect _ (o_md5 o) s rescue l) as [[infos' peps]|e]; [|discriminate].
+  destruct (is_mult (m_score me) && no_evidence infos'); [discriminate|].
+  destruct (match rescue, m_picked me, ps_obsolete a with
+            | true, PickedGroup, Some (og, oi) => (groups s ++ og, infos' ++ oi)
+            | _, _, _ => (groups s, infos') end) as [gs is].
+  destruct (do_competition _ _ _ p1 p2) as [ranked|e]; [|discriminate].
+  destruct (calculate_protein_fdrs _) as [qs|e]; [|discriminate].
+  destruct (from_protein_groups _ _ _ qs _ ka) as [rows'|e]; [reflexivity | discriminate].
+Qed.
+
 (* a call after ANY sequence of earlier calls on the same configuration object gives what a fresh one gives *)
 Record call := { c_l : pil; c_ka : bool; c_thr : Q; c_pc : Q; c_pis : list (list nat); c_o : oracles }.
 Definition after_history (me : method) (h : list call) : pstate :=
@@ -135,7 +149,20 @@ Qed.
 
 Theorem call_after_any_history me h o l ka thr pc pis :
   snd (run me o (after_history me h) l ka thr pc pis) = snd (run me o fresh l ka thr pc pis).
-Proof. apply run_history_independent. rewrite after_history_seen. reflexivity. Qed.
+Proof. apply run_history_independent. Qed.
+
+(* histories in which calls may be ABORTED at any point: an aborted call leaves the configuration object in some state the model
+   does not try to predict (any seen set, any razor table, any cutoffs, any placeholder list) - [Abort st] stands for all of them *)
+Inductive hstep := Completed (c : call) | Aborted (left_behind : pstate).
+Definition after_steps (me : method) (h : list hstep) : pstate :=
+  fold_left (fun st x => match x with
+                         | Completed c => fst (run me (c_o c) st (c_l c) (c_ka c) (c_thr c) (c_pc c) (c_pis c))
+                         | Aborted st' => st'
+                         end) h fresh.
+
+Theorem call_after_any_steps me h o l ka thr pc pis :
+  snd (run me o (after_steps me h) l ka thr pc pis) = snd (run me o fresh l ka thr pc pis).
+Proof. apply run_history_independent. Qed.
 
 (* ---- C18: unsupported combinations are refused with the tool's own error ---- *)
 Lemma rescue_needs_pep_score me o st l ka thr pc pis rows1 infos1 st1 s0 :
